@@ -11,7 +11,8 @@
        real C code logged after every call must be the ones the action prescribes.            *)
 EXTENDS Integers, Sequences, FiniteSets, TLC, Json
 
-CONSTANTS Key, Val, MaxLen, IdxSlack, MaxPairs
+CONSTANTS Key, Val, MaxLen, IdxSlack, MaxPairs,
+          LitSizes        \* sizes of long map literals (keys 1 .. n) the generator may build in one step
 
 VARIABLES m, a, hist
 vars == <<m, a, hist>>
@@ -51,6 +52,8 @@ PairSeqs == UNION {[1 .. n -> Key \X Val] : n \in 0 .. MaxPairs}
 
 MapNext == \/ New /\ Op([op |-> "new"])
            \/ \E ps \in PairSeqs : FromPairs(ps) /\ Op([op |-> "frompairs", pairs |-> ps])
+           \/ \E n \in LitSizes : LET ps == [i \in 1 .. n |-> <<i, CHOOSE v \in Val : TRUE>>]      \* a long literal
+                                  IN FromPairs(ps) /\ Op([op |-> "frompairs", pairs |-> ps])
            \/ \E k \in Key, v \in Val : Set(k, v) /\ Op([op |-> "set", k |-> k, v |-> v])
            \/ \E k \in Key : Query /\ Op([op |-> "get", k |-> k])
            \/ \E k \in Key : Query /\ Op([op |-> "has", k |-> k])
